@@ -71,6 +71,10 @@ def run_world(world, collect_rows=False, extra_setup=None):
     res["violations"] = [v.to_json() for v in ctx.violations]
     res["probes"] = dict(ctx.probes)
     res["faults"] = dict(ctx.faults)
+    if getattr(b.loader, "deliveries", 0):
+        # F4: workload delivered in windows by a cumulative loader (first delivery not counted as a fault)
+        res["faults"]["late_workload_deliveries"] = b.loader.deliveries - 1
+        res["faults"]["workload_update_calls"] = b.loader.calls
     for k, v in getattr(b.scheduler, "stats", {}).items():
         res["faults"]["chaos_" + k] = v
     started = sum(1 for s in ctx.shadows.values() if s.starts)
